@@ -616,6 +616,9 @@ func c05AgentEscalation(e *Env, s *Sched) {
 	type send struct {
 		ci   ssa.CallInstruction
 		args []ssa.Value // sc, g, sig, done, allowOverride
+		// fromReq[k] >= 0: argument k is that field of the routine's own request
+		// struct, handed to a forwarder whole (`go a.deliver(order, done)`)
+		fromReq [5]int
 	}
 	var sends []send
 	isPart := map[*ssa.Function]bool{}
@@ -639,7 +642,7 @@ func c05AgentEscalation(e *Env, s *Sched) {
 			h := ci.Common().StaticCallee()
 			if h == schedSignal {
 				if len(ci.Common().Args) == 5 {
-					sends = append(sends, send{ci, ci.Common().Args})
+					sends = append(sends, send{ci, ci.Common().Args, [5]int{-1, -1, -1, -1, -1}})
 				}
 				continue
 			}
@@ -652,15 +655,37 @@ func c05AgentEscalation(e *Env, s *Sched) {
 					continue
 				}
 				sub := make([]ssa.Value, 5)
+				fromReq := [5]int{-1, -1, -1, -1, -1}
 				for k, a := range ia {
 					sub[k] = a
 					for pi, hp := range h.Params {
-						if ir.Resolve(a) == ssa.Value(hp) && pi < len(ci.Common().Args) {
+						if pi >= len(ci.Common().Args) {
+							continue
+						}
+						if ir.Resolve(a) == ssa.Value(hp) {
 							sub[k] = ci.Common().Args[pi]
+							continue
+						}
+						// a field of a struct parameter of the forwarder (`order.sig`)
+						fi, isFld := fieldOfParam(a, hp)
+						if !isFld {
+							continue
+						}
+						arg := ci.Common().Args[pi]
+						st, isSt := derefT(hp.Type()).Underlying().(*types.Struct)
+						if !isSt {
+							continue
+						}
+						if reqParam != nil && (ir.Resolve(arg) == ssa.Value(reqParam) || ir.Deep(arg) == ssa.Value(reqParam)) {
+							fromReq[k] = fi
+							continue
+						}
+						if fv := e.structFieldsOf(arg, st); fv != nil && fi < len(fv) {
+							sub[k] = fv[fi]
 						}
 					}
 				}
-				sends = append(sends, send{ci, sub})
+				sends = append(sends, send{ci, sub, fromReq})
 			}
 		}
 	}
@@ -681,11 +706,11 @@ func c05AgentEscalation(e *Env, s *Sched) {
 					sprintf("after MaxCleanUpTime the agent does not force-kill: signal const=%d allowOverride=%s", sigConst, e.C.Render(args[4])))
 			} else if !async {
 				// re-send: same signal, no override
-				r.Check(isSigV(args[2]) && allowIsConst && !allow, "Agent.signal: periodic re-send of the requested signal without override", e.InstrPos(ci),
+				r.Check((isSigV(args[2]) || (sigField >= 0 && sd.fromReq[2] == sigField)) && allowIsConst && !allow, "Agent.signal: periodic re-send of the requested signal without override", e.InstrPos(ci),
 					"the periodic re-send does not forward the requested signal (or allows override)")
 			} else {
 				// first send in the goroutine: requested signal and allowOverride parameter
-				r.Check(isSigV(args[2]) && isOvV(args[4]) && !ir.IsNilConst(ir.Deep(args[3])), "Agent.signal: first send forwards (sig, allowOverride) and waits via done", e.InstrPos(ci),
+				r.Check((isSigV(args[2]) || (sigField >= 0 && sd.fromReq[2] == sigField)) && (isOvV(args[4]) || (ovField >= 0 && sd.fromReq[4] == ovField)) && !ir.IsNilConst(ir.Deep(args[3])), "Agent.signal: first send forwards (sig, allowOverride) and waits via done", e.InstrPos(ci),
 					"the first fan-out does not forward the requested signal / override flag or does not wait for the graph to stop")
 				// and it is sent whatever the run looks like at that instant: from the routine's
 				// entry to the send no condition other than a nil test. "No step is running"
@@ -1034,6 +1059,32 @@ func (kc *killCheck) summary(f *ssa.Function, top bool, depth int) *killSum {
 					return true // nothing was started: nothing to signal
 				}
 			}
+			// the same test behind a predicate of the executor (`if !e.started() { return nil }`):
+			// every way the predicate has that outcome is one of the two nil tests on its receiver
+			if n.Kind == "val" {
+				if c, isC := ir.Resolve(n.V).(*ssa.Call); isC && c.Call.StaticCallee() != nil && e.P.Funcs[c.Call.StaticCallee()] && len(c.Call.Args) > 0 && ir.Resolve(c.Call.Args[0]) == ssa.Value(f.Params[0]) {
+					h := c.Call.StaticCallee()
+					if alts, okA := e.boolHelperReturns(h, n.Pol); okA && len(alts) > 0 && len(h.Params) > 0 {
+						all := true
+						for _, alt := range alts {
+							found := false
+							for _, l := range alt {
+								if l.Kind == "cmp" && l.Op == token.EQL && ir.IsNilConst(l.Y) {
+									if p, ok := e.C.PathOf(l.X); ok && (p.Suffix("cmd") || p.Suffix("Process")) && ir.Resolve(p.Root) == ssa.Value(h.Params[0]) {
+										found = true
+									}
+								}
+							}
+							if !found {
+								all = false
+							}
+						}
+						if all {
+							return true
+						}
+					}
+				}
+			}
 			return false
 		},
 		Bad: func(in ssa.Instruction) bool {
@@ -1226,6 +1277,21 @@ func c05TimeoutCtx(e *Env, s *Sched) {
 				}
 				if fv, isFV := x.X.(*ssa.FreeVar); isFV {
 					return derives(fv, d+1)
+				}
+				// a field of a small helper object the run's values are carried in
+				// (`exec := &execution{ctx: ctx, …}` … `e.ctx`): everything stored into it
+				if fa, isFA := x.X.(*ssa.FieldAddr); isFA {
+					if vals := e.helperObjectFields(fa.X.Type(), fa.Field); len(vals) > 0 {
+						all := true
+						for _, sv := range vals {
+							if !derives(sv, d+1) {
+								all = false
+							}
+						}
+						if all {
+							return true
+						}
+					}
 				}
 				for _, st := range ir.StoresTo(x.X) {
 					if derives(st, d+1) {
@@ -1430,4 +1496,32 @@ func c05CancelMark(e *Env, s *Sched, rule string) {
 	}
 	r.Check(bad == nil && len(marks) > 0, "Node.signal: a node that is running is marked canceled on every path", e.Pos(fn.Pos()),
 		"a stop can leave a running node in state running (e.g. when its process has not been created yet): the worker then skips the execution because of the cancel flag and labels the node finished - the stopped run is reported finished, onSuccess runs, onCancel does not", facts...)
+}
+
+// fieldOfParam: v reads field k of the struct parameter p (passed by value): Field(p, k),
+// or a load of field k of the local p was spilled into.
+func fieldOfParam(v ssa.Value, p *ssa.Parameter) (int, bool) {
+	switch x := ir.Resolve(v).(type) {
+	case *ssa.Field:
+		if ir.Resolve(x.X) == ssa.Value(p) {
+			return x.Field, true
+		}
+	case *ssa.UnOp:
+		if x.Op != token.MUL {
+			return 0, false
+		}
+		if fa, ok := x.X.(*ssa.FieldAddr); ok {
+			if ir.Resolve(fa.X) == ssa.Value(p) {
+				return fa.Field, true
+			}
+			if al, isA := fa.X.(*ssa.Alloc); isA {
+				for _, sv := range ir.StoresTo(al) {
+					if ir.Resolve(sv) == ssa.Value(p) {
+						return fa.Field, true
+					}
+				}
+			}
+		}
+	}
+	return 0, false
 }
